@@ -185,11 +185,12 @@ Section Final.
     disk_inv w -> hist_sound w -> safe_op T o -> op_det w o -> hist_sound (fst (apply_op w o)).
   Proof.
     intros Hinv Hs Hsafe Hdet.
-    destruct o as [p c | p | p x | t | | | | | t | v | t v | goal | goal];
+    destruct o as [p c | p | p x | p q | t | | | | | t | v | t v | goal | goal];
       cbn [Ops.apply_op fst]; unfold upd_rd; try apply tick_hist_sound.
     - eapply hist_sound_same; [|exact Hs]. rewrite C01Script.write_file_rd. reflexivity.
     - eapply hist_sound_same; [|exact Hs]. reflexivity.
     - eapply hist_sound_same; [|exact Hs]. rewrite C01Script.set_exec_rd. reflexivity.
+    - eapply hist_sound_same; [|exact Hs]. rewrite InvProofs.move_file_rd. reflexivity.
     - eapply hist_sound_same; [|exact Hs]. reflexivity.
     - intros r hs h _ H. cbn in H. discriminate.
     - eapply hist_sound_same; [|exact Hs]. reflexivity.
